@@ -168,10 +168,14 @@ func doPosition(positionCommand string) {
 			posGen.ApplyUciMove(move)
 		}
 	}
-	//clear killer moves
-	for _, killers := range killerMoves {
-		killers[0] = Move{}
-		killers[1] = Move{}
+	clearKillerMoves()
+}
+
+// Forget the killer moves of earlier searches. (Ranging over killerMoves by value would only
+// clear copies of its entries.)
+func clearKillerMoves() {
+	for i := range killerMoves {
+		killerMoves[i] = [2]Move{}
 	}
 }
 
@@ -251,6 +255,8 @@ out:
 		endtime = calcEndtime(startTime, blackMillisLeft, blackMillisIncrement, whiteMillisLeft, whiteMillisIncrement,
 			fullMovesToGo)
 	}
+	// every search starts from the same state, whatever was searched before
+	clearKillerMoves()
 	// discard a stop request that arrived after the previous search had already finished
 	select {
 	case <-search.stop:
